@@ -217,6 +217,15 @@ def check_kde(ctx, c):
         if not np.allclose(o1, o2, rtol=1e-10, atol=1e-300):
             viol("order-dependence", "permuting the values of each sequence changed its row", {"maxrel": float(np.max(np.abs(o1 - o2) / np.maximum(o1, 1e-300)))})
             return
+    # short sequences (one and two values) against the closed form, in a batch with longer ones
+    if h > 0 and np.isfinite(h):
+        shorts = [np.array([float(X[0][0])]), np.array([float(X[0][0]), float(X[0][-1])]), X[0], np.array([float(g.mean())])]
+        os_ = est.transform(shorts)
+        ds_ = np.array([[np.mean(np.exp(-0.5 * ((gg - s) / h) ** 2)) / (h * math.sqrt(2 * math.pi)) for gg in g] for s in shorts])
+        ctx.count("kde_rows", len(shorts))
+        if os_.shape != ds_.shape or not np.allclose(os_, ds_, rtol=1e-9, atol=1e-290):
+            viol("short-sequence-differs-from-gaussian-kde-formula", "row of a 1- or 2-value sequence differs from mean_i N(g; x_i, h)", {"got": os_[:2], "expected": ds_[:2]})
+            return
     # equal multisets in different rows -> equal rows
     o3 = est.transform([X[0], X[0][::-1].copy(), np.sort(X[0])])
     if not (np.allclose(o3[0], o3[1], rtol=1e-10, atol=1e-300) and np.allclose(o3[0], o3[2], rtol=1e-10, atol=1e-300)):
